@@ -237,6 +237,55 @@ static void limit_case(uint64_t idx, void *vctx)
     if (!vf_in_confirm) vf_outcome(h);
 }
 
+/* ---------------- alpha maps whose size differs from their image's ----------------
+ * The alpha map is its own image with its own width, height and storage; it is placed at an origin inside, partly outside or wholly
+ * outside its owner.  Every fetcher (narrow and wide pipeline, untransformed and per-pixel) and the destination write-back must stay
+ * inside the MAP's storage, which ends (or starts) at a PROT_NONE page. */
+static void amap_case(uint64_t idx, void *vctx)
+{
+    (void)vctx;
+    static const int asz[6][2] = { { 4, 2 }, { 4, 1 }, { 12, 2 }, { 8, 2 }, { 1, 1 }, { 8, 4 } };
+    static const int aorg[6][2] = { { 0, 0 }, { 2, 0 }, { -3, 0 }, { 0, 1 }, { 5, -1 }, { -9, 0 } };
+    static const pixman_format_code_t afm[4] = { PIXMAN_a8, PIXMAN_a1, PIXMAN_a8r8g8b8, PIXMAN_a2r10g10b10 };
+    static const pixman_format_code_t dfm[4] = { PIXMAN_a8r8g8b8, PIXMAN_rgba_float, PIXMAN_a2r10g10b10, PIXMAN_r5g6b5 };
+    static const int32_t XFM[4][6] = { { F1, 0, 0, 0, F1, 0 }, { 0x8000, 0, 0, 0, 0x8000, 0 }, { F1, 0, 0x8000, 0, F1, -0x8000 }, { 0, F1, 0, -F1, 0, 2 * F1 } };
+    int dims[8] = { 2, 4, 4, 3, 4, 4, 6, 6 }, d[8];
+    vf_decode(idx, dims, 8, d);
+    int place = d[0], rep = d[1], xi = d[2], role = d[3], di = d[4], ai = d[5], oi = d[6], si = d[7];
+    static const pixman_repeat_t reps[4] = { PIXMAN_REPEAT_NONE, PIXMAN_REPEAT_NORMAL, PIXMAN_REPEAT_PAD, PIXMAN_REPEAT_REFLECT };
+    gimg_t owner = make_guarded(role == 2 ? dfm[di] : PIXMAN_a8r8g8b8, 8, 2, 0, !place, idx + 11);
+    gimg_t map = make_guarded(afm[ai], asz[si][0], asz[si][1], 0, place, idx + 5);
+    gimg_t other = make_guarded(role == 2 ? PIXMAN_a8r8g8b8 : dfm[di], 8, 2, 0, place, 41);       /* role 2: the source; else the destination */
+    pixman_image_set_alpha_map(owner.img, map.img, (int16_t)aorg[oi][0], (int16_t)aorg[oi][1]);
+    if (role != 2) {
+        pixman_transform_t t; memset(&t, 0, sizeof t); t.matrix[0][0] = XFM[xi][0]; t.matrix[0][1] = XFM[xi][1]; t.matrix[0][2] = XFM[xi][2];
+        t.matrix[1][0] = XFM[xi][3]; t.matrix[1][1] = XFM[xi][4]; t.matrix[1][2] = XFM[xi][5]; t.matrix[2][2] = F1;
+        if (xi) pixman_image_set_transform(owner.img, &t);
+        pixman_image_set_filter(owner.img, (xi & 1) ? PIXMAN_FILTER_BILINEAR : PIXMAN_FILTER_NEAREST, NULL, 0);
+        pixman_image_set_repeat(owner.img, reps[rep]);
+    } else if (xi || rep) { free_guarded(&owner); free_guarded(&map); free_guarded(&other); return; }     /* a destination has no transform / repeat */
+    pixman_color_t white = { 0xffff, 0x8000, 0x4000, 0xc000 };
+    pixman_image_t *solid = pixman_image_create_solid_fill(&white);
+    static const int LC[2] = { PH_CFG_DEFAULT, PH_CFG_GENERAL };
+    static const pixman_op_t ops[3] = { PIXMAN_OP_SRC, PIXMAN_OP_OVER, PIXMAN_OP_DISJOINT_OVER };
+    uint64_t n = 0;
+    for (int ci = 0; ci < 2; ci++) {
+        ph_set_cfg(LC[ci]);
+        for (int o = 0; o < 3; o++) for (int rq = 0; rq < 2; rq++) {
+            int sx = rq ? -2 : 0, sy = rq ? 1 : 0;
+            if (role == 0) pixman_image_composite32(ops[o], owner.img, NULL, other.img, sx, sy, 0, 0, 0, 0, 8, 2);
+            else if (role == 1) pixman_image_composite32(ops[o], solid, owner.img, other.img, 0, 0, sx, sy, 0, 0, 8, 2);
+            else pixman_image_composite32(ops[o], other.img, NULL, owner.img, sx, sy, 0, 0, 0, 0, 8, 2);
+            n++;
+        }
+    }
+    vf_count_libcalls(n);
+    uint64_t h = vf_mix(vf_hash64(other.g.lo, other.g.size, 1), vf_hash64(map.g.lo, map.g.size, 2));
+    pixman_image_unref(solid); free_guarded(&owner); free_guarded(&other); free_guarded(&map);
+    vf_count_eval(1); vf_count_nontrivial(1);
+    if (!vf_in_confirm) vf_outcome(h);
+}
+
 /* ---------------- same-shape copies between views of larger buffers ----------------
  * Source and destination have the same format, width, height and a stride LARGER than a row, and each is a view whose last row
  * ends exactly at a PROT_NONE page (the bytes between rows belong to a parent image, the bytes after the last row do not exist).
@@ -429,13 +478,14 @@ int main(int argc, char **argv)
     vf_space_run("composite-transformed-sources", nfull, c4_case, &c);
     vf_space_run("trapezoid-entry-points", th ? (uint64_t)NTY * NTY * NTX * NTX * NTX * 3 * 5 : (uint64_t)9 * 9 * 7 * 7 * 7 * 3 * 2, trap_case, th ? &c : NULL);
     vf_space_run("coordinate-range-edges", (uint64_t)4 * 3 * 15 * 8 * 7 * 3 * 2, limit_case, NULL);
+    vf_space_run("alpha-maps-of-other-sizes", (uint64_t)2 * 4 * 4 * 3 * 4 * 4 * 6 * 6, amap_case, NULL);
     vf_space_run("same-shape-copies-between-views", (uint64_t)6 * 4 * 3 * NCFG_LIST * 2, copy_case, NULL);
     vf_space_run("glyph-positions", (uint64_t)14 * 14 * 3 * 2 * 3, glyph_case, NULL);
     vf_space_run("create-bits-sizes", 9 * 9 * 6, create_case, NULL);
-    static char b[700];
+    static char b[1000];
     snprintf(b, sizeof b, "%d source formats x %s sizes x %s stride modes x alternating guard-page placement x %d transforms x %d filters x 4 repeats x 6 requests x %d ops x %d cfgs x %d destination formats; "
              "trapezoids %dx%d y x %d^3 x values x 3 depths x %d offsets; same-shape copies between padded views (6 formats x 4 sizes x 3 ops x 6 cfgs); glyphs 14x14 positions; create_bits 9x9 sizes x 6 formats; coordinate-range edges: 7 filters (NEAREST, FAST, BILINEAR, GOOD, BEST, convolution, separable) x 8 scales (1/256..2, negative) x "
-             "15 translations within 1.5 pixels of +-32768 x axis x/y/both x 4 repeats x 3 source formats x 2 sizes x 4 cfgs x SRC/OVER x source/mask role onto one-row destinations ending / starting at a guard page", NSF, th ? "5 of 6" : "3 of 6", th ? "3" : "2 of 3", NXF, th ? 6 : 4,
+             "15 translations within 1.5 pixels of +-32768 x axis x/y/both x 4 repeats x 3 source formats x 2 sizes x 4 cfgs x SRC/OVER x source/mask role onto one-row destinations ending / starting at a guard page; alpha maps: 6 map sizes x 6 origins x 4 map formats on an 8x2 owner in the source / mask / destination role x 4 transforms x 4 repeats x 4 partner formats (narrow and wide pipeline) x 3 ops x 2 cfgs", NSF, th ? "5 of 6" : "3 of 6", th ? "3" : "2 of 3", NXF, th ? 6 : 4,
              th ? 3 : 2, th ? 6 : 4, th ? 2 : 1, th ? NTY : 9, th ? NTY : 9, th ? NTX : 7, th ? 5 : 2);
     vf_bounds = b;
     snprintf(vf->extra_json, sizeof vf->extra_json, "\"arithmetic_traps_observed\": %llu, \"arithmetic_traps_note\": \"SIGFPE (INT_MIN / -1 in pixman_edge_init for edges spanning the whole 16.16 y range) is a crash but not an out-of-bounds access; counted, not judged\"", (unsigned long long)*fpe_count);
